@@ -1,4 +1,4 @@
-import GateryModel.C18.Spec
+import GateryModel.C18.Literal
 /-!
 Driver for C18: reads the harness protocol on stdin, replays every operation on
 (a) the word-level model and (b) the bit-array specification, and compares both with what the
@@ -24,6 +24,9 @@ structure D where
   hist : List (String × Nat) := []
   lastOp : String := ""
   trace : List String := []      -- ops of the current case (for replay files)
+  litRes : Option ParseResult := none
+  litStr : String := ""
+  caseKind : String := ""
 
 def bump (h : List (String × Nat)) (k : String) : List (String × Nat) :=
   match h with
@@ -186,12 +189,61 @@ partial def loop (h : IO.FS.Stream) (d : D) (lineNo : Nat) (pending : Option Out
   | "case" :: k :: cfg :: _ =>
     let ext := cfg == "E"
     let npl := if ext then 4 else 2
-    loop h { d with ext := ext, caseId := k, cases := d.cases + 1,
+    loop h { d with ext := ext, caseId := k, cases := d.cases + 1, caseKind := cfg, litRes := none,
                     model := Array.replicate 4 (BVS.empty npl), spec := Array.replicate 4 ⟨0, List.replicate npl []⟩ } (lineNo+1) none
   | ["end"] => loop h d (lineNo+1) none
+  | "lit" :: rest =>
+    let s := " ".intercalate rest
+    loop h { d with ops := d.ops + 1, hist := bump d.hist "parse", lastOp := s!"lit {s}", litRes := some (parseBitVector s), litStr := s } (lineNo+1) none
+  | ["bin", s] =>
+    match d.litRes with
+    | some (.ok size v dd) =>
+      let m := formatBinary size v dd
+      let m := if m.isEmpty then "-" else m
+      if m != s then
+        IO.println s!"DIFF case={d.caseId} line={lineNo} op=[format {d.litStr}] model={m} impl={s}"
+        loop h { d with diffs := d.diffs + 1 } (lineNo+1) none
+      else loop h { d with ops := d.ops + 1, hist := bump d.hist "formatBinary" } (lineNo+1) none
+    | _ => loop h d (lineNo+1) none
+  | ["hex", s] =>
+    match d.litRes with
+    | some (.ok size v dd) =>
+      let m := if size % 4 == 0 then formatHex size v dd else formatBinary size v dd
+      let m := if m.isEmpty then "-" else m
+      if m != s then
+        IO.println s!"DIFF case={d.caseId} line={lineNo} op=[formathex {d.litStr}] model={m} impl={s}"
+        loop h { d with diffs := d.diffs + 1 } (lineNo+1) none
+      else loop h { d with ops := d.ops + 1, hist := bump d.hist "formatHex" } (lineNo+1) none
+    | _ => loop h d (lineNo+1) none
   | ["load", _] => loop h { d with lastOp := "load" } (lineNo+1) (some (.mut 99))   -- content loaded through data(): next dump is taken as is
   | "->" :: rest =>
     let v := " ".intercalate rest
+    if d.litRes.isSome && (v == "ok" || v.startsWith "e:") then
+      let m := match d.litRes with
+        | some (.ok _ _ _) => "ok" | some .designError => "e:design" | some .internalError => "e:internal" | none => "?"
+      -- specification of the grammar: b/o/x literals denote their digits (LSB = last character), zero extended to an explicit width
+      let (width, restL) := splitWidth d.litStr.toList
+      let spec : Option (Option (List (Option Bool))) := match restL with
+        | 'x' :: t => if t.all (digitOk 4) then some (specDigits 4 t width) else none
+        | 'o' :: t => if t.all (digitOk 3) then some (specDigits 3 t width) else none
+        | 'b' :: t => if t.all (digitOk 1) then some (specDigits 1 t width) else none
+        | _ => none
+      let mut d := d
+      if m != v then
+        IO.println s!"DIFF case={d.caseId} line={lineNo} op=[{d.lastOp}] model={m} impl={v}"
+        d := { d with diffs := d.diffs + 1 }
+      match spec with
+      | some (some _) =>
+        if v != "ok" then
+          IO.println s!"PROPFAIL case={d.caseId} line={lineNo} op=[parse {d.litStr}] spec=accepts impl={v}"
+          d := { d with propfails := d.propfails + 1 }
+      | some none =>
+        if v != "e:design" then
+          IO.println s!"PROPFAIL case={d.caseId} line={lineNo} op=[parse {d.litStr}] spec=too-narrow(design error) impl={v}"
+          d := { d with propfails := d.propfails + 1 }
+      | none => pure ()
+      loop h d (lineNo+1) none
+    else
     match pending with
     | some (.val m s) =>
       let mut d := d
@@ -216,6 +268,30 @@ partial def loop (h : IO.FS.Stream) (d : D) (lineNo : Nat) (pending : Option Out
   | "=" :: _ =>
     match parseDump toks with
     | some (r, impl) =>
+      if d.ext == false && d.litRes.isSome && d.caseKind == "L" then
+        let mut d := d
+        match d.litRes with
+        | some (.ok size v dd) =>
+          let m : BVS := ⟨size, [v, dd]⟩
+          if m != impl then
+            IO.println s!"DIFF case={d.caseId} line={lineNo} op=[{d.lastOp}] model={showBVS m} impl={showBVS impl}"
+            d := { d with diffs := d.diffs + 1 }
+        | _ => pure ()
+        let (width, restL) := splitWidth d.litStr.toList
+        let spec : Option (List (Option Bool)) := match restL with
+          | 'x' :: t => if t.all (digitOk 4) then specDigits 4 t width else none
+          | 'o' :: t => if t.all (digitOk 3) then specDigits 3 t width else none
+          | 'b' :: t => if t.all (digitOk 1) then specDigits 1 t width else none
+          | _ => none
+        match spec with
+        | some bits =>
+          let implBits := resultBits (.ok impl.size (impl.plane 0) (impl.plane 1))
+          if implBits != some bits then
+            IO.println s!"PROPFAIL case={d.caseId} line={lineNo} op=[parse {d.litStr}] spec-bits-differ impl={showBVS impl}"
+            d := { d with propfails := d.propfails + 1 }
+        | none => pure ()
+        loop h d (lineNo+1) none
+      else
       if d.lastOp == "load" then
         loop h (setS (setM d r impl) r (specOf impl)) (lineNo+1) none
       else
